@@ -415,6 +415,52 @@ impl FieldApi for crrl::ed448::Scalar {
     fn encode(a: Self) -> Vec<u8> { a.encode().to_vec() }
 }
 
+// user-defined moduli of the generic Montgomery field macro (64-bit backend): 3, 4, 6 and 8 limbs
+#[cfg(not(feature = "w32"))]
+mod gfgen_user {
+    use crrl::backend::define_gfgen;
+    pub struct P130; impl P130 { const MODULUS: [u64; 3] = [0xFFFFFFFFFFFFFFFB, 0xFFFFFFFFFFFFFFFF, 0x3]; }
+    define_gfgen!(GG130, P130, gg130mod, false);
+    pub struct P256; impl P256 { const MODULUS: [u64; 4] = [0xFFFFFFFFFFFFFF43, 0xFFFFFFFFFFFFFFFF, 0xFFFFFFFFFFFFFFFF, 0xFFFFFFFFFFFFFFFF]; }
+    define_gfgen!(GG256, P256, gg256mod, false);
+    pub struct P384; impl P384 { const MODULUS: [u64; 6] = [0xFFFFFFFFFFFFFEC3, 0xFFFFFFFFFFFFFFFF, 0xFFFFFFFFFFFFFFFF, 0xFFFFFFFFFFFFFFFF, 0xFFFFFFFFFFFFFFFF, 0xFFFFFFFFFFFFFFFF]; }
+    define_gfgen!(GG384, P384, gg384mod, true);
+    pub struct P512; impl P512 { const MODULUS: [u64; 8] = [0xFFFFFFFFFFFFFDC7, 0xFFFFFFFFFFFFFFFF, 0xFFFFFFFFFFFFFFFF, 0xFFFFFFFFFFFFFFFF, 0xFFFFFFFFFFFFFFFF, 0xFFFFFFFFFFFFFFFF, 0xFFFFFFFFFFFFFFFF, 0xFFFFFFFFFFFFFFFF]; }
+    define_gfgen!(GG512, P512, gg512mod, false);
+}
+#[cfg(not(feature = "w32"))]
+macro_rules! gfgen_user_impl {
+    ($t:ty, $name:expr, $nl:expr, $bits:expr, $sub:expr) => {
+        impl FieldApi for $t {
+            const NAME: &'static str = $name;
+            const ENC_LEN: usize = ($bits + 7) / 8;
+            const RAW_LEN: usize = 8 * $nl;
+            fn modulus() -> BigUint { (BigUint::from(1u32) << $bits) - BigUint::from($sub as u32) }
+            common_ops!($t);
+            fn raw(b: &[u8], variant: u32) -> Self {
+                let mut x = [0u64; $nl];
+                for i in 0..$nl { let mut t = [0u8; 8]; t.copy_from_slice(&b[8 * i..8 * i + 8]); x[i] = u64::from_le_bytes(t); }
+                let mut y = x; y.reverse();
+                match variant & 3 { 0 => <$t>::from_w64le(x), 1 => <$t>::w64le(x), 2 => <$t>::from_w64be(y), _ => <$t>::w64be(y) }
+            }
+            mulk_all!();
+            fn mul_small(a: Self, k: u32) -> Option<Self> { Some(a.mul_small(k)) }
+            fn invert(a: Self) -> Option<Self> { Some(a.invert()) }
+            sqrt_both!();
+            fn split(a: Self) -> Option<(Vec<u8>, Vec<u8>)> { let (c0, c1) = a.split_vartime(); Some((c0.to_vec(), c1.to_vec())) }
+            fn encode(a: Self) -> Vec<u8> { a.encode().to_vec() }
+        }
+    };
+}
+#[cfg(not(feature = "w32"))]
+gfgen_user_impl!(gfgen_user::GG130, "GG130", 3, 130usize, 5);
+#[cfg(not(feature = "w32"))]
+gfgen_user_impl!(gfgen_user::GG256, "GG256", 4, 256usize, 189);
+#[cfg(not(feature = "w32"))]
+gfgen_user_impl!(gfgen_user::GG384, "GG384", 6, 384usize, 317);
+#[cfg(not(feature = "w32"))]
+gfgen_user_impl!(gfgen_user::GG512, "GG512", 8, 512usize, 569);
+
 // ------------------------------------------------------------------------
 // input classes
 
@@ -482,6 +528,16 @@ pub fn boundary_values(q: &BigUint, raw_len: usize) -> Vec<(String, Vec<u8>)> {
         }
         x
     });
+    // values whose INTERNAL Montgomery representation (y stored for the value y / 2^(8*raw_len)) is a limb-boundary pattern
+    let r = &top % q;
+    if r != BigUint::from(0u32) {
+        let rinv = r.modpow(&(q - 2u32), q);
+        let w64: BigUint = (&one << 64usize) - 1u32;
+        let pats: Vec<(&str, BigUint)> = vec![("mont:limb0-max", w64.clone()), ("mont:limb1-max", &w64 << 64), ("mont:lo128-max", (&one << 128) - 1u32),
+            ("mont:q-1", q - 1u32), ("mont:1", one.clone()), ("mont:q-2^64", q - (&one << 64)), ("mont:alt", (&w64 << 64) | (&w64 << 192)),
+            ("mont:top", &one << (q.bits() - 1))];
+        for (n, y) in pats { if y < *q { v.push((n.to_string(), (&y * &rinv) % q)); } }
+    }
     v.into_iter().map(|(n, x)| (n, to_le(&x, raw_len))).collect()
 }
 
@@ -1044,6 +1100,29 @@ fn run_zeroflip<F: FieldApi>(tr: &mut Trace, rng: &mut Rng, _plan: &Plan) {
             }
         }
     }
+    // the same single-bit patterns placed in the INTERNAL representation of the Montgomery-form types:
+    // the value y / R (R = 2^(8*RAW_LEN)) is stored as y; pairs (c, c + y/R) differ in exactly one stored bit
+    // (up to carries).  For the other types these are just more values.
+    let rinv = {
+        let r = &top % &q;
+        if r == BigUint::from(0u32) { return; }
+        r.modpow(&(&q - 2u32), &q)
+    };
+    for b in 0..(8 * F::RAW_LEN) {
+        let y = &one << b;
+        if y >= q { break; }
+        let x = (&y * &rinv) % &q;
+        if !ok {
+            m = Mach::<F>::new(tr);
+            ok = m.raw(1, &to_le(&zeros[zeros.len() - 1], F::RAW_LEN), 0) && m.raw(2, &random_raw(rng, &q, F::RAW_LEN), 0);
+            if !ok { return; }
+        }
+        ok = m.raw(0, &to_le(&x, F::RAW_LEN), b as u32);
+        if !ok { continue; }
+        m.iszero(0); m.equals(0, 1); m.equals(1, 0);
+        ok = m.bin("add", 3, 0, 2, b as u32);
+        if ok { m.equals(3, 2); m.equals(2, 3); }
+    }
 }
 
 /// Candidate strings for the decoders: every length 0..=3*ENC_LEN+1 with
@@ -1411,6 +1490,14 @@ pub fn run(tr: &mut Trace, rng: &mut Rng, ty: &str, what: &str, plan: &Plan) {
         "ScJq255s" => run_type::<crrl::jq255s::Scalar>(tr, rng, what, plan),
         "ScGls254" => run_type::<crrl::gls254::Scalar>(tr, rng, what, plan),
         "Sc448" => run_type::<crrl::ed448::Scalar>(tr, rng, what, plan),
+        #[cfg(not(feature = "w32"))]
+        "GG130" => run_type::<gfgen_user::GG130>(tr, rng, what, plan),
+        #[cfg(not(feature = "w32"))]
+        "GG256" => run_type::<gfgen_user::GG256>(tr, rng, what, plan),
+        #[cfg(not(feature = "w32"))]
+        "GG384" => run_type::<gfgen_user::GG384>(tr, rng, what, plan),
+        #[cfg(not(feature = "w32"))]
+        "GG512" => run_type::<gfgen_user::GG512>(tr, rng, what, plan),
         "MSpec193" => run_type::<MSpec193>(tr, rng, what, plan),
         "MSpec255" => run_type::<MSpec255>(tr, rng, what, plan),
         "MSpec256" => run_type::<MSpec256>(tr, rng, what, plan),
